@@ -1,5 +1,6 @@
 import RgVerif.Lemmas.SearcherStop
 import RgVerif.Lemmas.SearcherSimML
+import RgVerif.Lemmas.SearcherMaxCountTop
 /-
 C16 — stopping early or failing mid-stream yields a prefix of the full results; completion is
 signalled exactly once after a requested stop and never after an error.
@@ -78,6 +79,63 @@ theorem C16_nothing_after (cfg : Config) (m : MatcherI) (inp : Bytes) (σ : Scri
   simp only [List.length_append, List.length_take]
   split <;> simp <;> omega
 
+/-! ### The per-file match limit (`-m N`)
+
+`Spec/MaxCount.lean`: `maxCountScript (some N) A E` is what the printers' sink (`StandardSink` / JSON: `should_quit`,
+`match_more_than_limit`, `after_context_remaining`) answers along the uninterrupted stream `E`; `quitIndex N A E`
+is the counting spec: the `N`-th `matched` callback if `A = 0`, else the `A`-th following callback that is a match
+or an after-context line. -/
+
+open RgVerif.MaxCount in
+/-- **C16, match limit**: with the printers' limit `N` as the sink, the sink sees exactly the uninterrupted
+stream up to and including the callback at which the counting spec says the limit (plus its `A` trailing
+lines) is exhausted, then one `finish`; and the whole stream if that point is never reached. The search
+returns `Ok`. (`hE`, `hnb`: the uninterrupted stream starts with its only `begin` — true of every stream equal
+to the grep model, `grepSpecLines_shape`.) -/
+theorem C16_maxcount (cfg : Config) (m : MatcherI) (inp : Bytes) (N : Nat) (rest : List Event)
+    (hE : (sliceByLine cfg m allCont inp).events = Event.begin :: rest) (hnb : NoBegin rest) :
+    let E := (sliceByLine cfg m allCont inp).events
+    let R := sliceByLine cfg m (maxCountScript (some N) cfg.afterContext E) inp
+    R.result = .ok () ∧
+    match quitIndex N cfg.afterContext E with
+    | some k => k + 1 < E.length → ∃ bc bo, R.events = E.take (k + 1) ++ [Event.finish bc bo]
+    | none => R.events = E := by
+  intro E R
+  have hEE : E = Event.begin :: rest := hE
+  cases hq : quitIndex N cfg.afterContext E with
+  | none =>
+    have hall : maxCountScript (some N) cfg.afterContext E = allCont := by
+      rw [hEE] at hq ⊢; exact maxCount_never hnb hq
+    have hR : R = sliceByLine cfg m allCont inp := by show sliceByLine cfg m _ inp = _; rw [hall]
+    refine ⟨?_, ?_⟩
+    · rw [hR]
+      have h0 : FirstStop (fun i => if i = 0 then Resp.stop else Resp.cont) 0 :=
+        ⟨fun i h => by omega, by simp⟩
+      exact (C16_stop cfg m inp _ 0 h0).1
+    · simp only; rw [hR]
+  | some k =>
+    obtain ⟨hfs, hstop⟩ : FirstStop (maxCountScript (some N) cfg.afterContext E) k ∧
+        maxCountScript (some N) cfg.afterContext E k = .stop := by
+      rw [hEE] at hq ⊢; exact maxCount_firstStop hnb hq
+    obtain ⟨h0, h1, h2⟩ := C16_stop cfg m inp _ k hfs
+    have hres : R.result = .ok () := by
+      cases hr : R.result with
+      | ok u => rfl
+      | err =>
+        by_cases hlt : k + 1 < E.length
+        · have := (h1 hlt).2.1 hr
+          rcases this with h | ⟨_, h⟩
+          · exact absurd h (maxCountScript_ne_err _ _ _ _)
+          · exact absurd h (maxCountScript_ne_err _ _ _ _)
+        · have := ((h2 (by show E.length ≤ k + 1; omega)).2.1 hr).2
+          exact absurd this (maxCountScript_ne_err _ _ _ _)
+    refine ⟨hres, ?_⟩
+    simp only
+    intro hlt
+    obtain ⟨⟨bc, bo, he⟩, _⟩ := h1 hlt
+    rw [hstop] at he
+    exact ⟨bc, bo, by simpa using he⟩
+
 /-! ### Non-vacuity -/
 
 def mX : MatcherI := MatcherI.ofFindAt fun h at_ => if 120 ∈ h.drop at_ then some ⟨at_, h.length⟩ else none
@@ -91,5 +149,11 @@ example : FirstStop (stopAt 2) 2 := ⟨fun i h => by simp [stopAt]; omega, by si
 example : (sliceByLine cfg11 mX allCont inp6).events.length = 8 := by decide
 example : (sliceByLine cfg11 mX (stopAt 2) inp6).events =
     [.begin, .context .before (some 1) 0 [121, 10], .matched (some 2) 2 [120, 10], .finish 4 none] := by decide
+
+/-- `-m 1 -A 1` on the six-line input: the first match with its before-context, one trailing line, `finish` -/
+example : MaxCount.quitIndex 1 1 (sliceByLine cfg11 mX allCont inp6).events = some 3 := by decide
+example : (sliceByLine cfg11 mX (MaxCount.maxCountScript (some 1) 1 (sliceByLine cfg11 mX allCont inp6).events) inp6).events =
+    [.begin, .context .before (some 1) 0 [121, 10], .matched (some 2) 2 [120, 10],
+     .context .after (some 3) 4 [121, 10], .finish 6 none] := by decide
 
 end RgVerif.Props.C16
